@@ -54,10 +54,10 @@ func (self *Compiler) compilePrefixOp(op ast.PrefixOperator, span errors.Span) {
 
 func (self *Compiler) compileCallExpr(node ast.AnalyzedCallExpression) {
 	// Push each argument onto the stack
-	// The order is reversed so that later popping can be done naturally
+	// The arguments are evaluated from left to right: the callee pops its parameters in reverse order.
 	argc := uint(len(node.Arguments.List))
-	for i := len(node.Arguments.List) - 1; i >= 0; i-- {
-		self.compileOperand(node.Arguments.List[i].Expression, argc-1-uint(i))
+	for i := range node.Arguments.List {
+		self.compileOperand(node.Arguments.List[i].Expression, uint(i))
 	}
 
 	if node.Base.Kind() == ast.IdentExpressionKind {
